@@ -16,6 +16,7 @@ func Words(op string, value string) [][]WP {
 			{}, {{Kind: "lit", Text: "*"}}, {{Kind: "lit", Text: "?"}}, {{Kind: "sq", Text: "*"}}, {{Kind: "dq", Text: "?"}},
 			{{Kind: "lit", Text: "/*"}}, {{Kind: "lit", Text: "*/"}}, {{Kind: "lit", Text: "[a-c]"}}, {{Kind: "lit", Text: "[!a]*"}},
 			{{Kind: "var"}}, {{Kind: "lit", Text: "*"}, {Kind: "sq", Text: "*"}},
+			{{Kind: "assign"}}, {{Kind: "arith"}}, {{Kind: "lit", Text: "*"}, {Kind: "assign"}},
 		}
 		rs := []rune(value)
 		if len(rs) >= 2 {
